@@ -2,6 +2,7 @@
 import common
 from common import C, Nat, to_coq
 import lib
+import c15_forms
 from asn1tools.codecs import ber
 
 
@@ -53,7 +54,8 @@ def gen_header_cases(ctx, n):
         L = rng.choice(lens) if rng.random() < .5 else rng.randrange(0, 400)
         if rng.random() < 0.15:
             L = rng.choice([2 ** 32, 2 ** 64 + 3, 2 ** 100])       # declared, contents never complete
-        le = enc_len(L, None if rng.random() < .7 else rng.randrange(1, 6))
+        le = enc_len(L, None if rng.random() < .7 else rng.randrange(1, 6) if rng.random() < .8 else
+                     rng.choice([15, 16, 17, 64, 126, 127]))     # up to 127 length octets (X.690 8.1.3.5)
         have = L if L <= 70000 else rng.randrange(0, 50)
         if have > 300 and (rng.random() < .9 or big >= 3):
             have = rng.randrange(0, 300)     # most long contents are only partly present
@@ -109,6 +111,11 @@ def pt_framing(ctx, rounds):
         msg = spec.encode('T', v)
         alone = spec.decode('T', msg)
         tail = bytes(rng.randrange(256) for _ in range(rng.choice([0, 1, 2, 7, 300])))
+        if rng.random() < .5:
+            # tails that look like a continuation of the message: end-of-contents octets, a further
+            # segment / element, the next message of a stream
+            tail = rng.choice([b'\x00\x00', b'\x00\x00\x00\x00', b'\x04\x01\x41\x00\x00', msg[:300], b'\x00',
+                               b'\x24\x00\x00\x00', b'\x02\x01\x05'])
         r = lib.attempt(spec.decode_with_length, 'T', msg + tail)
         ctx.case(('pt', codec, meta['number'], meta['kind'], meta['n'], meta['mode'], len(tail) > 0),
                  dict(kind='decode_with_length', spec=text, codec=codec, msg_len=len(msg), tail_len=len(tail)))
@@ -196,7 +203,21 @@ def replay(ctx):
     doc = json.load(open(ctx.replay))
     r = doc['replay']
     print('replaying', r.get('kind'))
-    if r.get('kind') in ('decode_with_length', 'decode_length'):
+    if r.get('kind', '').startswith('forms-'):
+        spec = lib.compile_string(r['spec'], 'ber')
+        msg = bytes.fromhex(r['msg'])
+        print(r['spec'])
+        print('form:', r.get('form'), ' type:', r['type'], ' msg:', msg.hex())
+        print('decode_with_length(msg)        ->', lib.attempt(spec.decode_with_length, r['type'], msg))
+        if 'tail' in r:
+            print('decode_with_length(msg + %s) ->' % r['tail'],
+                  lib.attempt(spec.decode_with_length, r['type'], msg + bytes.fromhex(r['tail'])),
+                  ' expected end offset', len(msg))
+        if 'k' in r:
+            print('decode_length(first %d octets) ->' % r['k'], lib.attempt(spec.decode_length, bytes.fromhex(r['data'])[:r['k']]),
+                  ' expected', len(msg) if r['k'] >= r['header_len'] else None)
+        print('decode_length(msg)             ->', lib.attempt(spec.decode_length, msg))
+    elif r.get('kind') in ('decode_with_length', 'decode_length'):
         spec = lib.compile_string(r['spec'], r['codec'])
         if r['kind'] == 'decode_length':
             print('decode_length ->', lib.attempt(spec.decode_length, bytes.fromhex(r['msg'])[:r['k']]),
@@ -211,10 +232,32 @@ def run(ctx):
     ctx.rule = ('header cases: (tag number x class x minimal/padded) x (length value x short/long/padded form) x prefix '
                 'length k around every boundary; distinct by (tag octets, length octets, k relative to header); '
                 'PT cases: (codec, tag number, type kind, content size, tagging mode, tail?) on /repo; non-trivial = '
-                'multi-octet tag or long-form length or k strictly inside the header')
-    ok = ctx.coq_props()
+                'multi-octet tag or long-form length or k strictly inside the header; '
+                'forms cases (round 5): (type shape, focus string leaf written in each catalogue shape x length form x '
+                'enclosing length forms) x 8-10 adversarial tails x prefixes around the header')
+    # one build (one wait for the build lock) for everything the case files import
+    import_sets = [['Base.Prelude', 'Base.Corr', 'Ber.Header'], ['Base.Prelude', 'Ber.Header'], c15_forms.IMPORTS]
+    needs = [tuple(sorted('theories/%s.vo' % i.replace('.', '/') for i in imps)) for imps in import_sets]
+    # helper layer regenerated from the source (translator/pyfun.py) BEFORE the theorems are checked against it
+    import pyfun_tie
+    _tie = pyfun_tie.run_tie(ctx, budget=400)
+    ok = ctx.coq_props(extra_targets=sorted({t for need in needs for t in need} | {c15_forms.AGREE_V + 'o'}))
+    pyfun_tie.report(ctx, _tie, functions=['skip_tag', 'decode_length', 'skip_tag_length_contents', 'decode_full_length',
+                                           'encode_tag', 'encode_length_definite'])
+    ctx.log('Props/C15.v audited')
+    if ok:
+        ctx._built.update(needs)       # (otherwise coq_eval builds what it needs itself)
+    ok = c15_forms.audit_agree(ctx, built=ok) and ok
+    ctx.log('Ber/HeaderAgree.v audited')
+    ctx.trusted_base += [
+        'harness/c15_forms.py: deterministic TLV writer (catalogue of string shapes / length forms) on top of '
+        'codec_ber.py\'s independent parser and typed walker; every tree it writes is checked by X690.ber_check',
+        'Ber/X690.v part 2 (bwf, bser, bread): the notion of "valid BER encoding" in HeaderAgree.probe_agrees_with_decoder']
     n = 120 if ctx.quick else 1500
     corr_headers(ctx, n)
+    ctx.log('header correspondence done')
     pt_framing(ctx, 40 if ctx.quick else 600)
+    ctx.log('encoder-output framing done')
+    c15_forms.pt_forms(ctx, ctx.quick)
     if not ok:
         common.proof_broken(ctx)
